@@ -148,6 +148,30 @@ def _points_for(hyps, n, seed, with_m, m_sign):
                 continue
             if len(out) >= n:
                 return out
+    if out:
+        return out
+    # measure-zero regions (e.g. m >= 0 and not m > 0): pin variables to the constants they are compared with
+    cands = set()
+    for h in hyps:
+        for u in tm.subterms(h):
+            if u.op in ('lt', 'le', 'eq'):
+                a, b = u.args
+                if a.op == 'var' and b.op == 'const':
+                    cands.add((a.args[0], Fraction(b.args[0])))
+                if b.op == 'var' and a.op == 'const':
+                    cands.add((b.args[0], Fraction(a.args[0])))
+    for (vn, cv) in sorted(cands):
+        for sgn in (None, 'neg', 'pos'):
+            for p in sample_points(n * 2, seed + 5, with_m, sgn):
+                p.update(pins)
+                p[vn] = cv
+                try:
+                    if all(evalc.evaluate(h, p) for h in hyps):
+                        out.append(p)
+                except (evalc.Undefined, KeyError):
+                    continue
+                if len(out) >= n:
+                    return out
     return out
 
 
